@@ -550,6 +550,8 @@ class Evaluator:
         fresh_saved = self.fresh_counter[0]
         if it is not None:
             self.assign(st.target, ("iter", it), st)
+        else:
+            self.expr(st.test)
         self.block(st.body)
         after1 = self.env
         changed_vars = [k for k in set(before.vars) | set(after1.vars)
@@ -580,6 +582,9 @@ class Evaluator:
             self.env.heap[k] = ("carried", k, before.heap.get(k, k))
         if it is not None:
             self.assign(st.target, ("iter", it), st)
+        else:
+            # the loop test sees the carried values
+            cond = self.expr(st.test)
         self.cond = base_cond + ((("inloop", it if it is not None else cond), True),)
         stores0 = len(self.res.stores)
         eff0 = len(self.res.effects)
@@ -613,7 +618,7 @@ class Evaluator:
         self._loop(st, self.expr(st.iter), None)
 
     def s_While(self, st):
-        self._loop(st, None, self.expr(st.test))
+        self._loop(st, None, ("whiletest",))
 
     def s_With(self, st):
         for item in st.items:
